@@ -7,7 +7,7 @@ from pv import env, exact
 
 ID = "C17"
 LEVEL = "exploration"
-N = {"quick": 250, "thorough": 4000}
+N = {"quick": 1000, "thorough": 4000}
 RULE = ("cases over <=4 variables with 1-3 alternatives per side, each alternative an interval box (integer / half-integer bounds) along a "
         "distinguished variable plus optional bounds on the others, so that disjoint (gap >= 1), touching, overlapping and empty "
         "alternatives occur on purpose; operations: constructor with force_empty_intersection, contains_behavior, compound merge, <=; "
